@@ -213,6 +213,12 @@ var raceSubjects = func() []raceSubject {
 	subs = append(subs, raceSubject{name: "Failover/ShardedMap/SyncRead", make: makeFailoverInst(0, true), ops: failoverRaceOps()})
 	subs = append(subs, raceSubject{name: "InvalidationIndex", make: makeIndexInst, ops: indexRaceOps()})
 	subs = append(subs, raceSubject{name: "Invalidator", make: makeInvalidatorInst, ops: invalidatorRaceOps()})
+	subs = append(subs, raceSubject{name: "Invalidator/default-interval", make: func() *raceInst {
+		in := makeInvalidatorInst()
+		in.inv.SkipInterval = 0 // the default is filled in lazily by the first Invalidate
+
+		return in
+	}, ops: invalidatorRaceOps()})
 
 	return subs
 }()
